@@ -219,8 +219,18 @@ def main(argv=None):
                                          "observed": fl})
         violations.append((name, path, True))
 
-    n_obl = len([o for o in obs if o.name not in known_obligations])
-    n_dis = len([o for o in obs if o.meta['result']['verdict'] == "valid" and o.name not in known_obligations])
+    # bounded stand-ins (declared by the contract module): reported separately, never part of the proof count
+    bounded_decl = getattr(mod, "BOUNDED", [])
+    bounded_rep = []
+    bounded_names = set()
+    for sub, what in bounded_decl:
+        grp = [o for o in obs if sub in o.name]
+        bounded_names.update(o.name for o in grp)
+        bounded_rep.append({"what": what, "obligations": len(grp),
+                            "discharged": len([o for o in grp if o.meta['result']['verdict'] == "valid"]), "counted_as_proved": False})
+    n_obl = len([o for o in obs if o.name not in known_obligations and o.name not in bounded_names])
+    n_dis = len([o for o in obs if o.meta['result']['verdict'] == "valid" and o.name not in known_obligations
+                 and o.name not in bounded_names])
     per_backend = {}
     for o in obs:
         r = o.meta['result']
@@ -269,6 +279,7 @@ def main(argv=None):
             "undecided": undecided,
             "known_findings_reported": known_lines,
             "known_finding_obligations": sorted(known_obligations),
+            "bounded": bounded_rep + getattr(mod, "ENUMERATED", []),
             "notes": S.notes,
         },
         "assumptions": S.assumptions + getattr(mod, "ASSUMPTIONS", []),
